@@ -298,7 +298,16 @@ pub fn par_map<T: Sync, R: Send>(items: &[T], f: impl Fn(usize, &T) -> R + Sync)
                     if i >= items.len() {
                         break;
                     }
-                    local.push((i, f(i, &items[i])));
+                    // a panic that escapes a work item is a defect of the harness, not a verdict:
+                    // say which one it was before giving up
+                    match std::panic::catch_unwind(std::panic::AssertUnwindSafe(|| f(i, &items[i]))) {
+                        Ok(r) => local.push((i, r)),
+                        Err(p) => {
+                            let msg = crate::obs::payload_to_string(p);
+                            eprintln!("MACHINERY-ERROR: work item {i} of a parallel map panicked: {msg}");
+                            std::process::exit(2);
+                        }
+                    }
                 }
                 results.lock().unwrap().extend(local);
             });
